@@ -11,8 +11,10 @@ def sh(cmd, **kw):
     return subprocess.run(cmd, shell=True, stdout=subprocess.PIPE, stderr=subprocess.STDOUT, text=True, **kw)
 
 def main():
-    id = sys.argv[1]
-    checks = sys.argv[2:] or [id[:3]]
+    harmless = "--harmless" in sys.argv
+    argv = [a for a in sys.argv if a != "--harmless"]
+    id = argv[1]
+    checks = argv[2:] or [id[:3]]
     W, D = "/tmp/mut/" + id, "/tmp/mut/%s_deliver" % id
     meta = json.load(open(D + "/meta.json"))
     sh("git checkout -q -- . && git clean -fdq", cwd=W)
@@ -32,6 +34,8 @@ def main():
     if b1.returncode or b2.returncode:
         print("demo build problem:", (b1.stdout + b2.stdout)[-800:])
     ok = tests and p.returncode != 0 and c.returncode == 0
+    if harmless:      # behaviour-preserving refactoring: the demonstration must pass with and without it
+        ok = tests and p.returncode == 0 and c.returncode == 0
     results = {}
     if ok:
         # run the checks against the scratch worktree WITH the patch applied (VERIF_REPO), /repo itself stays untouched
@@ -43,17 +47,23 @@ def main():
             results[cid] = {"exit": r.returncode, "lines": tail}
         sh("git checkout -q -- .", cwd=W)
         sh("python3 tools/gen.py", cwd="/verif")
-    name = id
+    name = ("harmless-" + id) if harmless else id
     T = "/verif/seeded/" + name
     os.makedirs(T, exist_ok=True)
     for f in ("patch.diff", "demo.cpp"):
         shutil.copy(os.path.join(D, f), T)
-    meta["property"] = id[:3]
+    meta["property"] = meta.get("property") if harmless else id[:3]
     meta["demo_build_used"] = cmd.replace(W, "<worktree>").replace(D, "<dir>")
     meta["confirmed_by_me"] = {"how": "scratch worktree of /repo HEAD: git apply patch.diff; make testcpu && ./testcpu; demo built against the patched and the pristine tree",
                                "tests_pass_with_patch": tests, "demo_exit_patched": p.returncode, "demo_exit_clean": c.returncode, "kept": ok}
     meta["check_result"] = {"command": "git -C /repo apply /verif/seeded/%s/patch.diff; ./check <id> --tier quick; git -C /repo checkout -- .   (run here as VERIF_REPO=<scratch worktree with the patch> ./check <id>)" % name,
                             "results": results, "caught": any(v["exit"] == 1 for v in results.values())}
+    if harmless:
+        quiet = all(v["exit"] == 0 for v in results.values())
+        with_input = any(any("VIOLATION" in l and "no-failing-input-found" not in l for l in v["lines"]) for v in results.values())
+        meta["check_result"]["harmless_outcome"] = ("quiet (OK)" if quiet else ("FALSE ALARM WITH A CLAIMED FAILING INPUT" if with_input else
+                                                   "tie/proof broken, reported as VIOLATION ... no-failing-input-found (allowed: the property is no longer SHOWN to hold for the new text)"))
+        del meta["check_result"]["caught"]
     json.dump(meta, open(T + "/meta.json", "w"), indent=1)
     if ok:
         sh("git -C /repo worktree remove --force " + W); shutil.rmtree(D, ignore_errors=True)
